@@ -387,6 +387,7 @@ func GenerateSchemaModule(showPins bool) (string, error) {
 		return "", fmt.Errorf("t2_schema: user-defined aggregates %v survive in the bucket schema; not modelled", an)
 	}
 
+	w("/-- number of bucket migrations folded (the versions table of a bucket holds 0 … this) -/\ndef bucketMigrations : Nat := %d\n\n", len(migNames))
 	w("/-- the bucket schema a freshly migrated bucket ends with (names relative to the bucket) -/\n")
 	w("def bucket : BucketSchema :=\n  { tables := [%s]\n    funcs := [%s]\n    composites := composites\n    enums := enums\n    seqs := %s }\n\n",
 		strings.Join(prefixAll("tbl_", tnames), ", "), strings.Join(prefixAll("fn_", fnames), ", "), leanStrList(s.Sequences))
@@ -411,6 +412,7 @@ func GenerateSchemaModule(showPins bool) (string, error) {
 	if err != nil {
 		return "", err
 	}
+	w("def systemMigrations : Nat := %d\n\n", nsys)
 	w("def system : BucketSchema :=\n  { tables := [%s]\n    funcs := []\n    composites := []\n    enums := []\n    seqs := %s }\n\n",
 		strings.Join(prefixAll("sys_", snames), ", "), leanStrList(sys.Sequences))
 
